@@ -145,6 +145,12 @@ def segy_source(draw, geom="regular", max_dim=12, max_ns=40, fields=True, allow_
                     start -= 1
                 d["il"] = [start, step]
             corner0 = draw(st.integers(0, 7)) == 0
+            if dims is None and not corner0 and draw(st.integers(0, 7)) == 0:
+                # more than 128 grid cells, at most 128 traces: a footer array (4 bytes per grid cell) and
+                # "4 bytes per trace" then round to different numbers of 512-byte pages
+                d["n_il"], d["n_xl"] = draw(st.sampled_from([(12, 11), (11, 12), (13, 10), (9, 15), (16, 9)]))
+                d["ns"] = min(d["ns"], 10)
+                d["big_grid_keep"] = draw(st.integers(118, 128))
             grid = d["n_il"] * d["n_xl"]
             # a proper subset in which every inline and crossline keeps at least one trace:
             # first one trace per line (a drawn permutation-like assignment), then a random subset
@@ -164,6 +170,14 @@ def segy_source(draw, geom="regular", max_dim=12, max_ns=40, fields=True, allow_
                     if sum(1 for h in keep if h // d["n_xl"] == i) > 1 and sum(1 for h in keep if h % d["n_xl"] == x) > 1:
                         keep.discard(g)
                         break
+            if d.get("big_grid_keep"):
+                # keep the first cell of every inline and of every crossline, then fill up to the wanted count
+                must = {i * d["n_xl"] for i in range(d["n_il"])} | set(range(d["n_xl"]))
+                rest = [g for g in range(d["n_il"] * d["n_xl"]) if g not in must]
+                extra = draw(st.lists(st.sampled_from(rest), unique=True, min_size=d["big_grid_keep"] - len(must),
+                                      max_size=d["big_grid_keep"] - len(must)))
+                keep = must | set(extra)
+                d.pop("big_grid_keep")
             if corner0 and d["n_il"] >= 3:
                 # crossline numbering from 0, first and last trace of the file both on crossline 0: every inline
                 # but the last is complete except for one hole, the last inline holds one trace
@@ -234,10 +248,17 @@ def build(desc, d, name="src.sgy"):
             base[189], base[193] = run, np.full(n, fixed)
             grid = (list(run), [fixed])
         S.pos = list(range(n))
+    # where the sample interval is stated: in both headers (usual), in the trace headers only, or in the binary
+    # header only -- segyio takes it from whichever is set
+    bin_extra = dict(desc.get("bin") or {})
+    if desc.get("dt_where") == "bin":
+        base[117] = np.zeros(n, dtype=np.int64)
+    elif desc.get("dt_where") == "trace":
+        bin_extra.update({"3217": 0, "3219": 0})
     cols = field_columns(desc.get("fields", {}), n, base)
     path = os.path.join(d, name)
     sgy.write_segy(path, traces, cols, dt_us, fmt=desc["fmt"], grid=grid, ext_headers=desc["ext"],
-                   text=text_header(desc["text_seed"]), bin_extra=desc.get("bin"))
+                   text=text_header(desc["text_seed"]), bin_extra=bin_extra)
     S.path = path
     S.cols = cols
     S.n = n
